@@ -301,11 +301,13 @@ def script_for(hdef, scn, ty):
 
 
 def _enter(rec, hdef, bus, event, sync):
-    rec.nact += 1
-    act = rec.nact
+    e = rec.eid(event)
+    act = getattr(rec, 'pre_act', {}).pop((bus.name, e, hdef['id']), None)
+    if act is None:
+        rec.nact += 1
+        act = rec.nact
     t = asyncio.current_task()
     rec.task_act.setdefault(t, []).append(act)
-    e = rec.eid(event)
     owner = rec.exec_owner.get((bus.name, e, hdef['id']), '?')
     try:
         rb = event.event_bus.name
